@@ -16,6 +16,7 @@
 //              forward error bounds; round trips both ways with the bound of one step propagated through the Jacobian of the other;
 //              volume corners -> viewport rectangle corners and depth {0,1}; pickMatrix: pick-region corners -> (+-1,+-1), z, w untouched.
 #include "fp.hpp"
+#define NOINLINE_SINK __attribute__((noinline))
 #include "ref/refproj.hpp"
 #include <glm/glm.hpp>
 #include <glm/gtc/matrix_transform.hpp>
@@ -125,6 +126,7 @@ template <class T> static R check_volume(pbt::Ctx& c, const char* name, const st
 	return maxtol;
 }
 
+template <class M> static NOINLINE_SINK void sink(const M& m) { __asm__ volatile("" : : "r"(&m) : "memory"); }
 // element-by-element comparison of two GLM matrices that the statement says are the same projection (relative tolerance kk u)
 template <class T> static void check_same_matrix(pbt::Ctx& c, const char* metric, const std::string& key, const M4<T>& A, const M4<T>& B, int kk, const std::string& what) {
 	for (int cc = 0; cc < 4; ++cc) for (int i = 0; i < 4; ++i) {
@@ -148,6 +150,17 @@ template <class T> static void ortho_p(pbt::Ctx& c) {
 	const std::string a = v < 9 ? args<T>({l, r, b, t, n, f}) : args<T>({l, r, b, t});
 	c.logf("%s%s", name, a.c_str());
 	const Conv cv = v < 9 ? conv_of(v) : Conv{false, false};
+	// a builder is a pure function of its arguments: half of the cases evaluate f(args), then the same function on another volume, then
+	// f(args) again: the two results must be bit-identical (a two-call history inside the case, so that a dependence on the previous call
+	// replays from the choice list of this case alone)
+	if (c.coin()) {
+		T l2, r2, b2, t2, n2 = -1, f2 = 1; gen_interval(c, l2, r2); gen_interval(c, b2, t2); if (v < 9) gen_depth(c, n2, f2);
+		const M4<T> G1 = v < 9 ? call_ortho<T>(v, l, r, b, t, n, f) : glm::ortho(l, r, b, t); sink(G1);
+		const M4<T> W = v < 9 ? call_ortho<T>(v, l2, r2, b2, t2, n2, f2) : glm::ortho(l2, r2, b2, t2); sink(W);
+		const M4<T> G2 = v < 9 ? call_ortho<T>(v, l, r, b, t, n, f) : glm::ortho(l, r, b, t); sink(G2);
+		c.cls("preceded by another call of the same builder");
+		if (memcmp(&G1, &G2, sizeof G1) != 0) c.failk(std::string(name) + "/depends-on-previous-call", "%s%s returns a different matrix after %s%s was built in between", name, a.c_str(), name, (v < 9 ? args<T>({l2, r2, b2, t2, n2, f2}) : args<T>({l2, r2, b2, t2})).c_str());
+	}
 	const M4<T> G = v < 9 ? call_ortho<T>(v, l, r, b, t, n, f) : glm::ortho(l, r, b, t);
 	if (v >= 4 && v < 9) check_dispatch(c, name, "ortho", cv, G, call_ortho<T>(explicit_of(cv), l, r, b, t, n, f), a);
 	R mt = check_volume<T>(c, name, a, lift(G), l, r, b, t, n, f, false, cv, 4);
@@ -175,6 +188,14 @@ template <class T> static void frustum_p(pbt::Ctx& c) {
 	const std::string a = args<T>({l, r, b, t, n, f});
 	c.logf("%s%s", name, a.c_str());
 	const Conv cv = conv_of(v);
+	if (c.coin()) {  // two-call history, as for ortho
+		T l2, r2, b2, t2, n2, f2; gen_interval(c, l2, r2); gen_interval(c, b2, t2); gen_depth(c, n2, f2);
+		const M4<T> G1 = call_frustum<T>(v, l, r, b, t, n, f); sink(G1);
+		sink(call_frustum<T>(v, l2, r2, b2, t2, n2, f2));
+		const M4<T> G2 = call_frustum<T>(v, l, r, b, t, n, f); sink(G2);
+		c.cls("preceded by another call of the same builder");
+		if (memcmp(&G1, &G2, sizeof G1) != 0) c.failk(std::string(name) + "/depends-on-previous-call", "%s%s returns a different matrix after %s%s was built in between", name, a.c_str(), name, args<T>({l2, r2, b2, t2, n2, f2}).c_str());
+	}
 	const M4<T> G = call_frustum<T>(v, l, r, b, t, n, f);
 	if (v >= 4) check_dispatch(c, name, "frustum", cv, G, call_frustum<T>(explicit_of(cv), l, r, b, t, n, f), a);
 	R mt = check_volume<T>(c, name, a, lift(G), l, r, b, t, n, f, true, cv, 4);
@@ -198,6 +219,14 @@ template <class T> static void perspective_p(pbt::Ctx& c) {
 	const std::string a = args<T>({fovy, asp, n, f});
 	c.logf("%s%s", name, a.c_str());
 	const Conv cv = conv_of(v);
+	if (c.coin()) {  // two-call history, as for ortho
+		T fovy2, asp2, n2, f2; gen_fov(c, fovy2); gen_aspect(c, asp2); gen_depth(c, n2, f2);
+		const M4<T> G1 = call_perspective<T>(v, fovy, asp, n, f); sink(G1);
+		sink(call_perspective<T>(v, fovy2, asp2, n2, f2));
+		const M4<T> G2 = call_perspective<T>(v, fovy, asp, n, f); sink(G2);
+		c.cls("preceded by another call of the same builder");
+		if (memcmp(&G1, &G2, sizeof G1) != 0) c.failk(std::string(name) + "/depends-on-previous-call", "%s%s returns a different matrix after %s%s was built in between", name, a.c_str(), name, args<T>({fovy2, asp2, n2, f2}).c_str());
+	}
 	const M4<T> G = call_perspective<T>(v, fovy, asp, n, f);
 	if (v >= 4) check_dispatch(c, name, "perspective", cv, G, call_perspective<T>(explicit_of(cv), fovy, asp, n, f), a);
 	const R top = (R)n * tanl((R)fovy / 2), right = top * (R)asp;
